@@ -124,7 +124,7 @@ class VirtualIds:
     def __init__(self, ctx, enabled=True):
         self.ctx = ctx
         self.enabled = enabled
-        self.by_real: Dict[int, tuple] = {}  # real id -> (weakref, virtual id)
+        self.records = []  # (weakref, virtual id) in allocation order
         self.next_fresh = 100
         self.n = 0
         self.reused = 0
@@ -144,11 +144,11 @@ class VirtualIds:
     def __call__(self, obj):
         if obj is None:
             return self.NONE_ID
-        e = self.by_real.get(id(obj))
-        if e is not None and e[0]() is obj:
-            return e[1]
-        # allocate: any id of a dead object, or a fresh one
-        dead = sorted({v for (w, v) in self.by_real.values() if w() is None} - {v for (w, v) in self.by_real.values() if w() is not None})
+        for w, v in self.records:  # records are kept in allocation order (never keyed by the real address, which is reused)
+            if w() is obj:
+                return v
+        live = {v for (w, v) in self.records if w() is not None}
+        dead = sorted({v for (w, v) in self.records if w() is None} - live)
         self.n += 1
         k = self.ctx.choice("id%d" % self.n, len(dead) + 1)
         if k < len(dead):
@@ -158,10 +158,9 @@ class VirtualIds:
             vid = self.next_fresh
             self.next_fresh += 1
         try:
-            w = weakref.ref(obj)
+            self.records.append((weakref.ref(obj), vid))
         except TypeError:
-            return vid
-        self.by_real[id(obj)] = (w, vid)
+            pass
         return vid
 
 
@@ -226,6 +225,9 @@ def drop(ids: "VirtualIds", objs, i):
 def world_reset():
     eql_reset()
     SG.__dict__.pop("id", None)
+    # the automatic collector runs at allocation-count thresholds, i.e. at different points in a replayed path than in the
+    # first run; cyclic garbage is therefore only collected by the explicit collect operations of a history (and here)
+    gc.disable()
     gc.collect()
 
 
